@@ -41,6 +41,31 @@ def model(strings, flags="gsv"):
     return common.run_driver([f"cdc {flags} {common.hexs(s)}" for s in strings])
 
 
+def real_tokens(s):
+    """Outcome of the real Tokenizer: class names, with the text of identifiers and labels."""
+    from pyimpspec.circuit.tokenizer import Tokenizer, Identifier, Label
+
+    try:
+        toks = Tokenizer().process(s)
+    except BaseException as e:  # noqa
+        return "err " + type(e).__name__
+    return "ok " + ",".join((type(t).__name__ + ":" + common.hexs(t.value)) if type(t) in (Identifier, Label) else type(t).__name__ for t in toks)
+
+
+def compare_tokens(ctx, strings, stream, flags="gsv"):
+    """Token-level correspondence: the real Tokenizer against `Cdc.tokenize` (the function the tokenizer theorems are about)."""
+    exp = [real_tokens(s) for s in strings]
+    got = common.run_driver([f"tok {flags} {common.hexs(s)}" if s else f"tok {flags}" for s in strings])
+    diffs = []
+    for s, e, g in zip(strings, exp, got):
+        ctx.count(f"{stream}:{'ok' if e.startswith('ok') else e}")
+        if e.rstrip() != g.rstrip():
+            diffs.append({"input": s, "implementation": e[:400], "model": g[:400]})
+    if diffs:
+        ctx.add_broken("correspondence", f"tok/{stream}", {"n_diffs": len(diffs), "first": diffs[:5]})
+    return exp, diffs
+
+
 def exhaustive(n):
     for k in range(0, n + 1):
         for t in itertools.product(ATOMS, repeat=k):
